@@ -103,11 +103,11 @@ pub fn gen_c03(rng: &Rng, tier: Tier) -> ReadScn {
         let big = rng.chance(1, 3);
         let input = many_small_records(rng, fmt, if big { rng.range(70_000, 200_000) } else { rng.range(2000, 6000) });
         let a = if big {
-            Cfg { cap: 65536, policy: PolicySpec::Std, script: vec![rng.range(512, 9000) as u32], cuts: vec![], faults: vec![] }
+            Cfg { cap: 65536, policy: PolicySpec::Std, script: vec![rng.range(512, 9000) as u32], cuts: vec![], faults: vec![], intr_burst: None }
         } else {
             storm_cfg(rng)
         };
-        let b = Cfg { cap: rng.range(64, 400), policy: PolicySpec::Std, script: vec![], cuts: vec![], faults: vec![] };
+        let b = Cfg { cap: rng.range(64, 400), policy: PolicySpec::Std, script: vec![], cuts: vec![], faults: vec![], intr_burst: None };
         let n = input.iter().filter(|x| **x == if fmt == Fmt::Fasta { b'>' } else { b'@' }).count();
         return ReadScn { fmt, input, cfgs: vec![a, b], ops: ops_next_to_end(n), mon: Monitors::default(), profile: if big { "default_capacity_short_reads".into() } else { "interrupt_storm".into() } };
     }
@@ -421,9 +421,10 @@ pub fn run_c14(scn: &C14Scn, st: &mut Stats) -> RunResult {
     let jo = JudgeOpts { prop: "C14", check_pos: false, mon_prefixes: &[], check_msg: false, only: Some(C14_ONLY), exact_after_seek: false };
 
     // --- interrupted reads are invisible
-    if scn.check_interrupted && cfg0.script.iter().any(|x| *x == 0) {
+    if scn.check_interrupted && (cfg0.script.iter().any(|x| *x == 0) || cfg0.intr_burst.is_some()) {
         let mut c2 = cfg0.clone();
         c2.script.retain(|x| *x != 0);
+        c2.intr_burst = None;
         let quiet = drive(base, &c2, &targets);
         st.count("step.interrupt_pattern_comparisons", 1);
         if quiet.steps.len() != clean.steps.len() {
@@ -461,7 +462,7 @@ pub fn run_c14(scn: &C14Scn, st: &mut Stats) -> RunResult {
         }
         let kind = FAULT_KINDS[(k + scn.salt) % FAULT_KINDS.len()];
         let mut c = cfg0.clone();
-        c.faults = vec![Fault { call: k, kind: kind.to_string() }];
+        c.faults = vec![Fault { call: k, kind: kind.to_string(), payload: ["", "", "msg", "nested:Interrupted", "nested:BrokenPipe", "seqio"][(k + scn.salt / 8) % 6].to_string() }];
         let log = drive(base, &c, &targets);
         hash = vcore::mix(hash, log.log_hash);
         st.count("step.fault_points_enumerated", 1);
@@ -642,6 +643,7 @@ pub fn gen_c09(rng: &Rng, tier: Tier) -> C09Scn {
         4 => PolicySpec::Refuse,
         5 => PolicySpec::RefuseAfter(rng.range(0, 3)),
         6 => PolicySpec::DoubleLimit(rng.range(4, 80)),
+        _ if rng.chance(1, 3) => PolicySpec::Stall(rng.range(1, 4)),
         _ => PolicySpec::Add(rng.range(2, 9)),
     };
     let m = model::build(fmt, &input);
@@ -691,6 +693,47 @@ pub fn gen_c09(rng: &Rng, tier: Tier) -> C09Scn {
         };
         ops = ops_next_to_end(3);
         profile = "kib_sizes".into();
+    }
+    if (tier == Tier::Thorough && rng.chance(1, 3000)) || rng.chance(1, 60_000) {
+        // a buffer beyond the default 64 KiB: records of 40 and 100 KiB in a 128 KiB buffer (they
+        // fit after moving), then one that really needs growth
+        let cap = 128 * 1024 + rng.range(0, 64);
+        let lens = [rng.range(30_000, 50_000), rng.range(90_000, 110_000), rng.range(20_000, 60_000), rng.range(140_000, 200_000)];
+        let mut v = vec![];
+        for (i, l) in lens.iter().enumerate() {
+            match fmt {
+                Fmt::Fasta => {
+                    v.extend_from_slice(format!(">r{}\n", i).as_bytes());
+                    v.extend(std::iter::repeat(b'A').take(*l));
+                    v.push(b'\n');
+                }
+                Fmt::Fastq => {
+                    v.extend_from_slice(format!("@r{}\n", i).as_bytes());
+                    v.extend(std::iter::repeat(b'A').take(*l / 2));
+                    v.extend_from_slice(b"\n+\n");
+                    v.extend(std::iter::repeat(b'I').take(*l / 2));
+                    v.push(b'\n');
+                }
+            }
+        }
+        input = v;
+        cfg.cap = cap;
+        cfg.cuts = vec![];
+        cfg.intr_burst = None;
+        cfg.script = if rng.chance(1, 2) { vec![] } else { vec![rng.range(4000, 70_000) as u32] };
+        cfg.policy = if rng.chance(1, 2) { PolicySpec::Std } else { PolicySpec::DoubleLimit(600_000) };
+        ops = ops_next_to_end(4);
+        profile = "beyond_64k".into();
+    }
+    if rng.chance(1, 400) {
+        // opened by path with an explicit small capacity: the policy must still be the only way to a
+        // larger buffer
+        cfg.cuts = vec![];
+        cfg.script = vec![];
+        cfg.intr_burst = None;
+        cfg.cap = rng.range(3, 40);
+        ops = ops_next_to_end(n);
+        profile = crate::drive::PATH_PROFILE.into();
     }
     // thorough: long inputs of small records that all fit — must never grow
     if tier == Tier::Thorough && rng.chance(1, 40) && fmt == Fmt::Fasta {
@@ -785,6 +828,30 @@ pub fn run_c09(scn: &C09Scn, st: &mut Stats) -> RunResult {
             for (_, res) in &s.seam.grows {
                 if let Some(n) = res {
                     cap = *n;
+                }
+            }
+        }
+    }
+    // (a') nothing but the policy enlarges the buffer: a record that was delivered lay in the
+    // buffer as a whole, so its raw extent cannot exceed the capacity granted so far
+    {
+        let mut cap = cfg.cap.max(3);
+        for (si, s) in log.steps.iter().enumerate() {
+            for (_, res) in &s.seam.grows {
+                if let Some(n) = res {
+                    cap = cap.max(*n);
+                }
+            }
+            if let (Out::Rec(_), Some(Some(c))) = (&s.out, cursors.get(si)) {
+                if matches!(s.op, Op::Next | Op::OwnedNext) {
+                    let item = &m.items[*c];
+                    // the terminator of the last line need not be buffered at the end of the input
+                    let e = (item.end - item.byte) as usize;
+                    let e = if item.end as usize == rs.input.len() { e.saturating_sub(2) } else { e };
+                    if e > cap && item.is_rec() {
+                        v.push(Violation::new("C09.larger_than_granted", format!("step {} {:?}: a record of {} raw bytes was delivered although the capacity is {} and the policy has granted no more (grow_to calls so far: {})", si, s.op, e, cap, log.all_grows.len())));
+                        break;
+                    }
                 }
             }
         }
